@@ -128,6 +128,7 @@ pub fn run(seed: u64, ntraces: usize) {
         let hub_set = r.chance(5, 6) || d == 6 || d == 1 || d >= 10;
         let mut chains: Vec<(Vec<u8>, Vec<u8>)> = vec![(b"ethereum".to_vec(), b"0xITSeth".to_vec()), (b"avalanche".to_vec(), b"hub".to_vec()), (b"polygon".to_vec(), b"0xITSpoly".to_vec())];
         if hub_set { chains.push((b"axelar".to_vec(), b"axelar1hub".to_vec())); }
+        chains.push((b"axelarnet".to_vec(), b"0xITSnet".to_vec()));       // a directly trusted chain whose name has the hub's name as a prefix
         let mut args = vec![gw.to_vec(), gas.to_vec(), tmt.to_vec(), operator.to_vec(), b"multiversx".to_vec(), big(chains.len() as u64)];
         for (c, _) in &chains { args.push(c.clone()); }
         args.push(big(chains.len() as u64)); for (_, a) in &chains { args.push(a.clone()); }
@@ -210,7 +211,7 @@ pub fn run(seed: u64, ntraces: usize) {
             if d == 7 { script.extend([10u64, 2, 15, 10]); }       // pause, try step 3 and a remote deployment, unpause
             else if d == 3 { script.extend([47u64, 46, 23, 46, 3]); }  // steps called with different arguments: (1000, minter) then (0, no minter)
             else { script.extend([3u64, 23, 3, 3]); }
-            if d == 2 { script.extend([40u64, 43, 41, 40, 19, 41, 40, 41]); }   // the minter approves a remote deployment, hands the role on, then the stale approval is used                   // step 3, second issuance callback, step 3 again (twice)
+            if d == 2 { script.extend([40u64, 50, 43, 41, 40, 19, 41, 40, 41]); }   // the minter approves a remote deployment, hands the role on, then the stale approval is used                   // step 3, second issuance callback, step 3 again (twice)
         }
         if d == 1 || d == 6 || d >= 10 {
             // (1) an inbound link / deploy message for a token id that is already bound; (6) hub-wrapped inbound messages while paused
@@ -233,14 +234,14 @@ pub fn run(seed: u64, ntraces: usize) {
                     script.extend([1602u64, 1702, 1802, 1600, 10, 1602]);
                 }
                 else if d == 10 {   // inbound battery: every routing variant for a transfer without data, the main ones for transfers with data and deployments
-                    for v in 0..12u64 { script.push(1600 + v); }
-                    script.extend([1700u64, 20, 20, 1702, 1709, 1711, 1800, 1802, 1809, 1811]);
+                    for v in 0..14u64 { script.push(1600 + v); }
+                    script.extend([1700u64, 20, 20, 1702, 1708, 1709, 1711, 1713, 1808, 1800, 1802, 1809, 1811, 1813, 195]);
                 }
                 else if d == 11 {   // the service is paused while a transfer with data is in flight: failed and successful delivery, direct and hub-wrapped
-                    script.extend([1700u64, 10, 21, 20, 10, 1702, 10, 20, 20, 10, 1700, 21, 10, 20, 10]);
+                    script.extend([1700u64, 10, 21, 20, 10, 1702, 10, 20, 20, 10, 1700, 21, 10, 20, 10, 1700, 1700, 21, 24, 20, 20]);   // last part: a delivery fails while another of the same token is in flight
                 }
                 else if d == 12 {   // outbound battery: payment shapes x destination routing, with gas
-                    for sh in [9u64, 8, 0, 1, 2] { for ch in 0..4u64 { script.push(3000 + sh * 10 + ch); } }
+                    for sh in [9u64, 8, 0, 1, 2] { for ch in 0..5u64 { script.push(3000 + sh * 10 + ch); } }
                     for sh in [9u64, 8, 1] { for ch in 0..2u64 { script.push(3500 + sh * 10 + ch); } }
                 }
                 else if d == 14 {   // inbound deployment in two steps with the nominated minter calling the new manager directly in between
@@ -262,12 +263,21 @@ pub fn run(seed: u64, ntraces: usize) {
             let has_pending = !g.pend.is_empty();
             let scripted = !script.is_empty();
             let a = if !script.is_empty() { script.remove(0) } else if has_pending && r.chance(1, 2) { 20 } else { *r.pick(&[0u64, 1, 2, 3, 3, 3, 4, 4, 4, 5, 5, 5, 6, 6, 6, 7, 7, 7, 7, 8, 9, 10, 11, 12, 12, 13, 14, 14, 15, 16, 17, 18, 19, 19]) };
-            let force_fail = a == 21; let force_props_ok = a == 22; let force_issue_ok = a == 23;
-            let a = if a == 21 || a == 22 || a == 23 { 20 } else { a };
+            let force_fail = a == 21; let force_props_ok = a == 22; let force_issue_ok = a == 23; let force_cb = a == 24;
+            let a = if a == 21 || a == 22 || a == 23 || a == 24 { 20 } else { a };
             // 1<a><vv>: inbound message kind a (6, 7, 8) in routing variant vv; 20<i> / 21<i>: message-type word i (direct / hub-wrapped); 3<shape><chain> / 35..: outbound transfer / call; 190..192: inbound link / deploy for an already bound token id (direct, hub-wrapped, deploy)
             let mut fvar: Option<u64> = None; let mut fbound: Option<u64> = None;
             let mut ftype: Option<u64> = None; let mut fshape: Option<(u64, u64)> = None;
             let mut fdeploy = false;
+            if a == 195 { // a released transfer is approved again at the gateway (same message) and executed again: must be refused
+                g.msg += 1; let id = format!("msg-{}", g.msg).into_bytes();
+                if let Some(tk) = g.toks.first() { let tid = tk.id.clone();
+                    let payload = transfer_payload(&tid, b"0xsender", g.users[0].as_bytes(), 3, b"");
+                    let m = Msg { chain: b"ethereum".to_vec(), id: id.clone(), src: b"0xITSeth".to_vec(), contract: g.its.to_vec(), ph: keccak(&payload) };
+                    for _ in 0..2 { g.gw_approve(&m);
+                        g.its_tx("execute", &g.relayer.clone(), "execute", vec![b"ethereum".to_vec(), id.clone(), b"0xITSeth".to_vec(), payload.clone()], 0, &[],
+                            json!({"chain": hx(b"ethereum"), "id": hx(&id), "src": hx(b"0xITSeth"), "payload": hx(&payload), "ph": hx(&keccak(&payload)), "label": "in6/reapproved"})); } }
+                continue; }
             if a == 194 { // step 2 of the last inbound message: the same execute call with the issue cost attached
                 if let Some((chain, id, src, payload)) = g.last_in.clone() {
                     g.its_tx("execute", &g.relayer.clone(), "execute", vec![chain.clone(), id.clone(), src.clone(), payload.clone()], ISSUE_COST, &[],
@@ -328,7 +338,7 @@ pub fn run(seed: u64, ntraces: usize) {
                         5 if is_egld => (gasv, vec![]),
                         _ => if is_egld { (amt + gasv, vec![]) } else { (0, vec![(ttok.clone(), 0, bn(amt + gasv))]) },
                     };
-                    let dchain = if let Some((_, ch)) = fshape { [&b"ethereum"[..], b"avalanche", b"axelar", b"unknown"][ch as usize].to_vec() } else { r.pick(&[&b"ethereum"[..], b"avalanche", b"polygon", b"axelar", b"unknown", b"ethereum"]).to_vec() };
+                    let dchain = if let Some((_, ch)) = fshape { [&b"ethereum"[..], b"avalanche", b"axelar", b"unknown", b"axelarnet"][ch as usize].to_vec() } else { r.pick(&[&b"ethereum"[..], b"avalanche", b"polygon", b"axelar", b"unknown", b"ethereum", b"axelarnet"]).to_vec() };
                     // destination addresses and data also longer than one ABI word and not word aligned (textual addresses of other chains)
                     let daddr = if fshape.is_none() && r.chance(1, 10) { vec![] } else { match r.below(6) { 0 => r.bytes(40), 1 => r.bytes(33), 2 => r.bytes(64), _ => b"0xdestination".to_vec() } };
                     let before_c = g.toks[ti].custody;
@@ -367,7 +377,7 @@ pub fn run(seed: u64, ntraces: usize) {
                     };
                     let inner = if let Some(i) = ftype { let mut p = inner.clone(); for b in p[0..32].iter_mut() { *b = 0; }
                         match i { 0 => p[24] = 0x80, 1 => p[23] = 1, 2 => p[0] = 0x80, 3 => p[31] = 6, 4 => p[31] = 7, _ => p[27] = 1 }; p } else { inner };
-                    let variant = if let Some(v) = fvar { v } else if g.paused && r.chance(1, 3) { 2 } else if r.chance(2, 3) { 0 } else { r.below(12) };
+                    let variant = if let Some(v) = fvar { v } else if g.paused && r.chance(1, 3) { 2 } else if r.chance(2, 3) { 0 } else { r.below(14) };
                     let (chain, src, payload): (Vec<u8>, Vec<u8>, Vec<u8>) = match variant {
                         1 => (b"avalanche".to_vec(), b"hub".to_vec(), inner.clone()),                                   // direct message from a hub-routed chain
                         2 => (b"axelar".to_vec(), b"axelar1hub".to_vec(), hub_wrap(b"avalanche", &inner, 4)),           // properly wrapped
@@ -379,6 +389,8 @@ pub fn run(seed: u64, ntraces: usize) {
                         9 => (b"unknown".to_vec(), vec![], inner.clone()),                                              // chain without a trusted address, empty source address
                         10 => (b"polygon".to_vec(), if r.chance(1, 2) { vec![] } else { b"0xITSpoly".to_vec() }, inner.clone()),  // a chain that may have been removed
                         11 => (b"axelar".to_vec(), b"axelar1hub".to_vec(), hub_wrap(if r.chance(1, 2) { b"unknown" } else { b"polygon" }, &inner, 4)),   // wrapped, original chain unknown / direct
+                        12 => (b"axelarnet".to_vec(), b"0xITSnet".to_vec(), inner.clone()),                                // direct chain named like the hub + suffix: processed as direct
+                        13 => (b"axelarnet".to_vec(), b"0xITSnet".to_vec(), hub_wrap(b"avalanche", &inner, 4)),            // ... and it can not speak for the hub
                         _ => (b"ethereum".to_vec(), b"0xITSeth".to_vec(), inner.clone()),
                     };
                     let approve = variant != 8;
@@ -392,6 +404,8 @@ pub fn run(seed: u64, ntraces: usize) {
                             json!({"chain": hx(&chain), "id": hx(&id), "src": hx(&src), "payload": hx(&payload_x), "ph": hx(&keccak(&payload_x)), "label": format!("in{}/v{}", a, variant)}));
                         if ok { if let Some(tm) = dep { if a == 8 { let tid3 = payload[32..64].to_vec(); g.toks.push(Tok { id: tid3, kind: "remote-native", tm, token: None, salt: vec![], deployer: g.relayer.clone(), supply: 0, minter: vec![], custody: 0 }); } } }
                         if r.chance(1, 3) { break; }
+                        // the (public) approval is delivered to the gateway once more before the next attempt: an executed message must stay executed
+                        if approve && k + 1 < reps && r.chance(1, 3) { let m = Msg { chain: chain.clone(), id: id.clone(), src: src.clone(), contract: g.its.to_vec(), ph: keccak(&payload) }; g.gw_approve(&m); }
                     }
                 }
                 9 => { // setFlowLimits
@@ -444,7 +458,9 @@ pub fn run(seed: u64, ntraces: usize) {
                     let dchain = r.pick(&[&b"ethereum"[..], b"avalanche", b"unknown", b"multiversx", b""]).to_vec(); let gasv = r.below(3) * 777;
                     g.its_tx("deployRemoteCanonical", &anyone, "deployRemoteCanonicalInterchainToken", vec![token.clone(), dchain.clone()], gasv, &[], json!({"token": hx(&token), "dchain": hx(&dchain)})); }
                 16 => { let token = match r.below(4) { 0 => b"bad".to_vec(), _ => tok.clone() }; let gasv = r.below(3) * 555;
-                    g.its_tx("registerMetadata", &anyone, "registerTokenMetadata", vec![token.clone()], gasv, &[], json!({"token": hx(&token)})); }
+                    // the gas of this endpoint is EGLD only: an ESDT payment (1 in 4) must be refused
+                    let esdt: Vec<(Vec<u8>, u64, BigUint)> = if r.chance(1, 4) { vec![(tok2.clone(), 0, bn(9))] } else { vec![] };
+                    g.its_tx("registerMetadata", &anyone, "registerTokenMetadata", vec![token.clone()], if esdt.is_empty() { gasv } else { 0 }, &esdt, json!({"token": hx(&token)})); }
                 17 => { // linkToken
                     let customs: Vec<&Tok> = g.toks.iter().filter(|t| !t.salt.is_empty() && t.kind != "native").collect();
                     let (deployer, salt) = if !customs.is_empty() { let t = r.pick(&customs); (t.deployer.clone(), t.salt.clone()) } else { (anyone.clone(), r.bytes(32)) };
@@ -488,6 +504,12 @@ pub fn run(seed: u64, ntraces: usize) {
                     let caller = g.operator.clone(); let na = if a == 48 { g.users[1].clone() } else { g.users[2].clone() };
                     if a == 48 { let (ok, _, _) = g.its_tx("proposeOp", &caller, "proposeOperatorship", vec![na.to_vec()], 0, &[], json!({"a": hx(na.as_bytes())})); if ok { g.proposed = Some((caller.clone(), na.clone())); } }
                     else { let (ok, _, _) = g.its_tx("transferOp", &caller, "transferOperatorship", vec![na.to_vec()], 0, &[], json!({"a": hx(na.as_bytes())})); if ok { g.operator = na; } }
+                }
+                50 => { // directed: deployment naming the HASH of the approved (non-32-byte) destination minter as destination minter: another combination, must be refused
+                    let Some(tk) = g.toks.iter().rev().find(|t| t.kind == "native" && t.minter.len() == 32) else { continue; };
+                    let (deployer, salt, minter) = (tk.deployer.clone(), tk.salt.clone(), tk.minter.clone()); let (dchain, dm) = (b"ethereum".to_vec(), keccak(b"0xremoteminter"));
+                    g.its_tx("deployRemote", &deployer, "deployRemoteInterchainTokenWithMinter", vec![salt.clone(), minter.clone(), dchain.clone(), dm.clone()], 1000, &[],
+                        json!({"salt": hx(&salt), "minter": hx(&minter), "dchain": hx(&dchain), "dminter": Some(hx(&dm))}));
                 }
                 40 | 41 => { // directed: the nominated minter of the last native token approves (40) / the deployer uses (41) a remote deployment with a custom minter
                     let Some(tk) = g.toks.iter().rev().find(|t| t.kind == "native" && t.minter.len() == 32) else { continue; };
@@ -538,6 +560,7 @@ pub fn run(seed: u64, ntraces: usize) {
                     if force_issue_ok { if let Some(j) = g.pend.iter().position(|p| matches!(p.kind, PKind::Issue(..))) { i = j; } }
                     if force_props_ok { if let Some(j) = g.pend.iter().position(|p| matches!(p.kind, PKind::Props(..))) { i = j; } }
                     if force_fail { if let Some(j) = g.pend.iter().position(|p| matches!(p.kind, PKind::Transfer(_, None))) { i = j; } }
+                    if force_cb { if let Some(j) = g.pend.iter().position(|p| matches!(p.kind, PKind::Transfer(_, Some(_)))) { i = j; } }
                     let its_addr = g.its.clone();
                     let pid = g.pend[i].id;
                     let advance = match &mut g.pend[i].kind {
